@@ -59,6 +59,9 @@ def gen_cases(tier, seed):
                     yield {'limit': lim, 'content': cname, 'handler': handler, 'style': style, 'passing': passing, 'cas': cas}
     for lim in ('16B', '1MB', 'default'):
         for cas in cassettes.KINDS:
+            # ONE handler object used for two different files in one operation (one below, one above a small limit)
+            yield {'limit': lim, 'content': 'two-files', 'handler': 'output', 'style': 'inst', 'passing': 'pos', 'cas': cas}
+            yield {'limit': lim, 'content': 'two-files', 'handler': 'output', 'style': 'static', 'passing': 'kw', 'cas': cas}
             yield {'limit': lim, 'content': 'twice', 'handler': 'output', 'style': 'inst', 'passing': 'pos', 'cas': cas}
             yield {'limit': lim, 'content': 'twice', 'handler': 'input', 'style': 'inst', 'passing': 'kw', 'cas': cas}
 
@@ -136,9 +139,10 @@ def run_case(case):
         if case.get('bare'):
             os.chdir(scratch)
         viols = []
-        twice = case['content'] == 'twice'
+        two_files = case['content'] == 'two-files'
+        twice = case['content'] == 'twice' or two_files
         content = b'first-content-A' if twice else contents(limit_bytes)[case['content']]
-        content2 = b'other-content-B'
+        content2 = b'other-content-B' if not two_files else b'a much longer second file ' * 3
         src = os.path.join(scratch, 'src.bin') if not case.get('bare') else 'src.bin'
         with real_open(src, 'wb') as f:
             f.write(content)
@@ -156,7 +160,12 @@ def run_case(case):
                 f.write(content2)
             os.utime(src, ns=(st.st_atime_ns, st.st_mtime_ns))
         plan = [call(src)]
-        if twice:
+        src2 = os.path.join(scratch, 'second.bin') if not case.get('bare') else 'second.bin'
+        if two_files:
+            with real_open(src2, 'wb') as f:
+                f.write(content2)
+            plan = [call(src), call(src2)]
+        elif twice:
             plan = [call(src)[:3] + (rewrite,), call(src)]
         builtins.open = spy_open
         try:
@@ -165,7 +174,11 @@ def run_case(case):
             builtins.open = real_open
         expected = [PLACEHOLDER if len(c) > limit_bytes else c for c in ([content, content2] if twice else [content])]
         above = [len(c) > limit_bytes for c in ([content, content2] if twice else [content])]
-        if all(above) and any(n == 'src.bin' for n, m in opened):
+        if two_files:
+            for nm, ab in (('src.bin', above[0]), ('second.bin', above[1])):
+                if ab and any(n == nm for n, m in opened):
+                    viols.append(viol('above-limit-file-was-opened', 'a file strictly above the limit must never be read into the recording (%s)' % nm, [], opened))
+        elif all(above) and any(n == 'src.bin' for n, m in opened):
             viols.append(viol('above-limit-file-was-opened', 'a file strictly above the limit must never be read into the recording (limit %s, %d bytes)' % (case['limit'], len(content)), [], opened))
         ids = list(box.fresh().iter_recording_ids('FileOp'))
         if len(ids) != 1:
@@ -204,7 +217,7 @@ def run_case(case):
             if got != exp_last:
                 viols.append(viol('input:restored-bytes:%s' % _kind(case, content), 'file restored at the path named by the replayed call (limit %s, content %s, %d bytes)' % (
                     case['limit'], case['content'], len(content)), _short(exp_last), _short(got)))
-            if os.path.exists(src) and real_open(src, 'rb').read() != (content2 if twice else content):
+            if os.path.exists(src) and real_open(src, 'rb').read() != (content2 if twice and not two_files else content):
                 viols.append(viol('input:original-path-written', 'replay wrote to the recorded path instead of the path of the replayed call', 'untouched', 'changed'))
         else:
             h = handlers2['output' if case['style'] == 'inst' else 'output-static']
@@ -226,7 +239,7 @@ def run_case(case):
                     if written != expected[-1]:
                         viols.append(viol('output:holder-to_file', 'InterceptedOutputFileHolder.to_file must write the held bytes to the given path', _short(expected[-1]),
                                           _short(written) if isinstance(written, bytes) else written))
-                if name == 'recorded' and [x.output_file_path for x in holders] != [src] * len(holders):
+                if name == 'recorded' and [x.output_file_path for x in holders] != ([src, src2] if two_files else [src] * len(holders)):
                     viols.append(viol('output:recorded-path', 'holder path of the recorded output', src, [x.output_file_path for x in holders]))
         uniq = {}
         for v in viols:
